@@ -1,7 +1,11 @@
 // Package checks holds one file per property: generator, workload script, oracle.
 package checks
 
-import "verif/vc"
+import (
+	"os"
+
+	"verif/vc"
+)
 
 type Check struct {
 	Level string
@@ -9,3 +13,5 @@ type Check struct {
 }
 
 var Registry = map[string]Check{}
+
+func osGetenv(k string) string { return os.Getenv(k) }
